@@ -47,14 +47,16 @@ func (a *afPacketSource) SetReadDeadline(t time.Time) error {
 // Read reads a packet (starting with the IP frame)
 func (a *afPacketSource) Read(buf []byte) (int, error) {
 	var payload []byte
-	for payload == nil {
+	// skip frames that carry no IP packet: other EtherTypes, and frames too short to hold one (a runt
+	// must not make the read fail, nor come back as a zero-length read)
+	for len(payload) == 0 {
 		n, err := a.sock.Read(buf)
 		if err != nil {
 			return n, err
 		}
 		payload, err = stripEthernetHeader(buf[:n])
 		if err != nil {
-			return n, err
+			payload = nil
 		}
 	}
 	copy(buf, payload)
